@@ -1,8 +1,10 @@
 #!/bin/bash
 # usage: seedconfirm.sh <worktree> <change-dir>   -- confirm a seeded change in a scratch worktree:
 #   demo fails with the patch, the repo's test suite passes with the patch, demo passes without it.
-WT=$1; CH=$2; OUT=$CH/confirm.txt
+WT=$1; CH=$2; OUT=$CH/confirmation.txt
 export CARGO_NET_OFFLINE=true
+[ -d ${WT}-target ] && export CARGO_TARGET_DIR=${WT}-target
+BIN=${CARGO_TARGET_DIR:-target}/debug/risinglight
 cd $WT || exit 2
 : > $OUT
 git status --porcelain --untracked-files=no | grep -q . && { echo "worktree dirty" >> $OUT; exit 2; }
@@ -20,7 +22,7 @@ rundemos() { # $1 = label
   for d in $CH/demo*.slt; do
     [ -f $d ] || continue
     cargo build --offline > /dev/null 2>&1
-    RUST_BACKTRACE=0 ./target/debug/risinglight -f $d > $CH/confirm_$1_$(basename $d .slt).log 2>&1
+    RUST_BACKTRACE=0 $BIN -f $d > $CH/confirm_$1_$(basename $d .slt).log 2>&1
     rc=$?
     echo "demo $(basename $d) $1 (CLI, in-memory): exit=$rc" >> $OUT
   done
